@@ -52,6 +52,39 @@ def circuits(rng, n_extra=0):
     return out
 
 
+def shifted_openings(ctx, lines, limit=4):
+    """Frozen-heart style forgery against the batching challenge `u`: from an honest proof build
+         W_z'  = W_z  + [u (x - z w)] G,      W_zw' = W_zw - [x - z] G
+    (x the trapdoor; the attacker would use [x]G from the public parameters). The pairing equation is invariant under
+    this shift for the `u` the shift was built with, so the forged proof is accepted exactly by a verifier whose `u`
+    does not depend on the opening commitments. `u`, `z`, the domain generator and G come from the Lean model's
+    `chals` command (the model follows the transcript order extracted from the source)."""
+    out = []
+    honest = [l for l in lines if l.split(" ", 1)[0] == "expect-ok:honest"][:limit]
+    if not honest:
+        return out
+    reqs = ["chals " + l.split(" ", 2)[2] for l in honest]
+    ans = ctx.model(reqs)
+    for l, a in zip(honest, ans):
+        d = dict(t.split("=", 1) for t in a.split() if "=" in t)
+        if not all(k in d for k in ("z", "u", "omega", "g")):
+            continue
+        toks = l.split(" ")
+        x = int(toks[3], 16); proof = bytes.fromhex(toks[-1])
+        z, u, om = int(d["z"], 16), int(d["u"], 16), int(d["omega"], 16)
+        g = d["g"]
+        wz, wzw = proof[9 * 48:10 * 48].hex(), proof[10 * 48:11 * 48].hex()
+        a1 = u * ((x - z * om) % R) % R
+        b1 = (-(x - z)) % R
+        m = ctx.model(["g1mul %x %s" % (a1, g), "g1mul %x %s" % (b1, g)])
+        m2 = ctx.model(["g1add %s %s" % (wz, m[0].strip()), "g1add %s %s" % (wzw, m[1].strip())])
+        if any((not t.strip()) or t.startswith("err") or t.startswith("bad") for t in m + m2):
+            continue
+        forged = proof[:9 * 48] + bytes.fromhex(m2[0].strip()) + bytes.fromhex(m2[1].strip()) + proof[11 * 48:]
+        out.append("expect-reject:shifted-openings " + " ".join(toks[1:-1]) + " " + forged.hex())
+    return out
+
+
 def labels():
     return [("plonk", b"plonk"), ("plonl", b"plonl"), ("Plonk", b"Plonk"), ("plon", b"plon"), ("plonk0", b"plonk\x00"), ("empty", b"")]
 
